@@ -1,44 +1,30 @@
-import sys, time
+import sys, time, io, contextlib
 sys.path.insert(0, "/verif")
-from lib import env; env.setup()
+from lib import env
+env.setup()
 from migen import *
-from litex.soc.cores import code_8b10b as c
-from lib.bench.kernel import Bench
-from lib.bench.stream import *
-from lib.collect import rng_for
-
-class Top(Module):
-    def __init__(self, nwords=1):
-        self.submodules.enc = c.StreamEncoder(nwords)
-        self.submodules.dec = c.StreamDecoder(nwords)
-        self.comb += self.enc.source.connect(self.dec.sink)
-
-def run(garbage, vk, rk, seed=1):
-    rng = rng_for(seed)
-    top = Top()
-    toks = [{"first":0,"last":0,"pay":(rng.getrandbits(8), 0),"par":()} for i in range(200)]
-    b = Bench(top, cap=5000, drain=4)
-    vs,_ = make_sched(rng, vk); rs,_ = make_sched(rng, rk)
-    drv = b.add(SourceDriver(top.enc.sink, toks, vs, rng, garbage=garbage))
-    b.add(SinkDriver(top.dec.source, rs))
-    im = b.add(EndpointMonitor(top.enc.sink, "in"))
-    mm = b.add(EndpointMonitor(top.enc.source, "mid", check_stability=True))
-    om = b.add(EndpointMonitor(top.dec.source, "out", check_stability=True))
-    b.run()
-    print(garbage, vk, rk, len(im.log), len(mm.log), len(om.log), mm.stab_viol[:1], om.stab_viol[:1])
-    print(" roundtrip", [e[3] for e in im.log] == [e[3] for e in om.log])
-    rd = -1; bad = 0
-    for e in mm.log:
-        w = e[3][0]
-        ones = bin(w).count("1")
-        rd += 2*ones - 10
-        if rd not in (-1, 1):
-            bad += 1
-            rd = max(-1, min(1, rd))
-    print(" rd bad", bad)
-
-run(True, "always", "always")
-run(True, "always", "b50")
-run(True, "b50", "always")
-run(False, "b50", "always")
-run(True, "b50", "b50")
+from litex.soc.cores.clock import *
+from litex.soc.cores.clock.gowin_gw1n import GW1NPLL
+from litex.soc.cores.clock.gowin_gw2a import GW2APLL
+import litex.soc.cores.clock as C
+print([n for n in dir(C) if not n.startswith("_")])
+def t(cls, fin, fouts, **kw):
+    t0=time.time()
+    with contextlib.redirect_stdout(io.StringIO()):
+        pll = cls(**kw)
+        pll.register_clkin(Signal(), fin)
+        for i,f in enumerate(fouts):
+            pll.create_clkout(ClockDomain("c%d"%i), f)
+        try:
+            pll.finalize()
+            r = "ok"
+        except Exception as e:
+            r = repr(e)
+    print(cls.__name__, round(time.time()-t0,3), r, {k:v for k,v in pll.params.items() if k.startswith("p_")} if hasattr(pll,"params") else "")
+t(GW1NPLL, 27e6, [54e6], devicename="GW1N-9C", device="GW1N-LV9QN48C6/I5")
+t(GW1NPLL, 27e6, [54e6, 27e6], devicename="GW1N-9C", device="GW1N-LV9QN48C6/I5")
+t(GW1NPLL, 27e6, [27e6, 54e6], devicename="GW1N-9C", device="GW1N-LV9QN48C6/I5")
+t(GW2APLL, 27e6, [54e6], devicename="GW2A-18C", device="GW2A-LV18PG256C8/I7")
+from litex.soc.cores.clock.gowin_gw5a import GW5APLL
+t(GW5APLL, 50e6, [100e6], devicename="GW5A-25A", device="GW5A-LV25MG121NES")
+from litex.soc.cores.clock.colognechip import GateMatePLL
